@@ -221,7 +221,84 @@ LIB["torch.from_numpy"] = _as_kind(1)
 LIB["numpy.array"] = _as_kind(2)
 
 
+class AbsWorkerInfo(VAbs):
+    label = "worker-info"
+
+    def __init__(self):
+        self.nw = z3.Int(uid("info$num_workers"))
+        self.wid = z3.Int(uid("info$id"))
+
+    def getattr(self, name, st, eng):
+        if name == "num_workers":
+            st.assume(self.nw >= 1)
+            return VInt(self.nw)
+        if name == "id":
+            st.assume(z3.And(0 <= self.wid, self.wid < self.nw))
+            return VInt(self.wid)
+        raise KeyError(name)
+
+
 @lib("torch.utils.data.get_worker_info")
 def _get_worker_info(args, kwargs, st, eng):
-    """None in the main process, an info object inside a DataLoader worker"""
-    return VOpt(z3.Bool(uid("worker_info$none")), fresh(VAL, "worker_info"))
+    """None in the main process; inside a DataLoader worker an info object with num_workers >= 1 and 0 <= id < num_workers"""
+    return VOpt(z3.Bool(uid("worker_info$none")), AbsWorkerInfo())
+
+
+class AbsRng(VAbs):
+    """numpy Generator: its stream is a function of its seed key; draws advance a counter kept in ghost-free closure
+    (each draw returns a fresh uninterpreted value of (key, draw number))"""
+    label = "np-rng"
+
+    def __init__(self, key):
+        self.key = key
+        self.draws = 0
+
+    def keyterm(self):
+        return self.key
+
+    def getattr(self, name, st, eng):
+        if name in ("random", "uniform", "normal", "beta"):
+            def f(args, kwargs, s, e, name=name):
+                self.draws += 1
+                r = z3.Function("RngReal", z3.IntSort(), z3.IntSort(), z3.RealSort())(self.key, z3.IntVal(self.draws))
+                if name == "random":
+                    s.assume(z3.And(r >= 0, r < 1))
+                if name == "uniform" and len(args) >= 2:
+                    lo, hi = _e.to_real(e.deref(args[0], s)), _e.to_real(e.deref(args[1], s))
+                    s.assume(z3.Or(z3.And(lo <= r, r <= hi), z3.And(hi <= r, r <= lo)))
+                if name == "beta":
+                    s.assume(z3.And(r >= 0, r <= 1))
+                return VReal(r)
+            return VFunc("rng." + name, f)
+        if name == "integers":
+            def f(args, kwargs, s, e):
+                self.draws += 1
+                lo = _e.to_int(e.deref(args[0], s))
+                hi = _e.to_int(e.deref(args[1], s)) if len(args) > 1 else None
+                if hi is None:
+                    lo, hi = z3.IntVal(0), lo
+                e.safety(s, "rng.integers:low<high", lo < hi, None, "rng.integers(low, high) raises ValueError when low >= high")
+                r = z3.Function("RngInt", z3.IntSort(), z3.IntSort(), z3.IntSort())(self.key, z3.IntVal(self.draws))
+                s.assume(z3.And(lo <= r, r < hi))
+                return VInt(r)
+            return VFunc("rng.integers", f)
+        raise KeyError(name)
+
+
+def _global_rng(args, kwargs, st, eng):
+    """kappadata.utils.random.get_rng_from_global(): a generator seeded from the process-global numpy RNG (one global read)"""
+    if "g_global_reads" in st.ghost:
+        st.ghost["g_global_reads"] = VInt(st.ghost["g_global_reads"].t + 1)
+    return AbsRng(z3.Int(uid("global_seed")))
+
+
+DEFAULT_EXTERNALS = {"kappadata/utils/random.py::get_rng_from_global": _global_rng}
+
+
+@lib("numpy.random.default_rng")
+def _default_rng(args, kwargs, st, eng):
+    seed = kwargs.get("seed", args[0] if args else NONEV)
+    seed = eng.deref(seed, st)
+    if isinstance(seed, VNone):
+        return AbsRng(z3.Int(uid("os_entropy")))
+    return AbsRng(_e.to_int(seed))
